@@ -115,7 +115,14 @@ def one(ctx, rng, xr, dask, ops, names):
     dt = str(rng.choice(["float64", "float32"]))
     x = gen.make_da(A, f, th, lnames, lsizes, dtype=dt)
     aux = O.make_aux(rng, x, xr)
-    chunks = chunking(rng, x, ck)
+    if lnames and rng.random() < 0.25:
+        # the same labelled data held in another dimension order (spectral dimensions first, dir before freq): which axis is
+        # "the last one" then differs from the usual layout while the chunking is still described by dimension name
+        od_ = [str(v_) for v_ in rng.permutation(list(x.dims))]
+        x = x.transpose(*od_).copy()
+        ck += "+transposed"
+        rec.note("chunked_input_in_another_dimension_order")
+    chunks = chunking(rng, x, ck.split("+")[0])
     xc = x.chunk(chunks)
     f32 = dt == "float32"
     chosen = list(rng.choice(names, size=ctx.n(7, 12), replace=False))
